@@ -42,7 +42,13 @@ func readGposSubtable(p *parser.Parser, pos int64, meta *LookupMetaInfo) (Subtab
 		return nil, err
 	}
 
-	reader, ok := gposReaders[10*meta.LookupType+format]
+	// The readers are indexed by 10*type+format: make sure that the two
+	// numbers cannot run into each other.
+	var reader func(p *parser.Parser, pos int64) (Subtable, error)
+	ok := false
+	if format < 10 && meta.LookupType < 1000 {
+		reader, ok = gposReaders[10*meta.LookupType+format]
+	}
 	if !ok {
 		return nil, &parser.InvalidFontError{
 			SubSystem: "sfnt/opentype/gtab",
